@@ -33,7 +33,7 @@ BAD = [('label', 'a'), ('label', 'fill'), ('label', '_byte'), ('label', '.zero')
 def sigma(i):
     return (
         [('def', n) for n in ('G1', 'G2', '_f1', '.l1', '.l2', 'g1')] +        # g1: a different name from G1 (labels are case sensitive)
-        [('const', 'K', 0x51), ('const', '_k', 0x52)] +
+        [('const', 'K', 0x51), ('const', '_k', 0x52), ('const', 'Z0', 0)] +        # a constant is a constant whatever its value (0 included)
         [('ref', n) for n in ('G1', '_f1', '.l1', '.l2', 'K', '_k', 'PRE', 'g1')] +
         [('defref', 'G2', '.l1'), ('defref', '_f1', '.l2')] +         # `G2: .byte .l1`: the statement belongs to the region its label opens
         [('org', 0x20 + 8 * i, None), ('memzone', 'zz')] +
@@ -52,7 +52,7 @@ MONOTONE = ('defined twice', 'is a keyword', 'is a register', 'without an enclos
 def meta(tier):
     q = tier == 'quick'
     return {
-        'rule': 'every history over the 31-symbol alphabet (definitions = label + nop so that every definition has its own address, '
+        'rule': 'every history over the 32-symbol alphabet (one constant has the value 0) (definitions = label + nop so that every definition has its own address, '
                 'references = .byte name, constants, .org, .memzone, 6 catalogue includes, 6 ill-named labels) up to the depth '
                 'bound, each in two variants (as is / with closing definitions for referenced-but-undefined global and file '
                 'labels, which makes them forward references); expected = value of the unique visible definition or rejection; '
